@@ -2,6 +2,7 @@ open Model
 open Conv
 
 (* case:  cell <kind> <preload> <limit> <passes> <n> <consumers> <cancel> [<eof> [<fs>]]
+          sized <kind> <preload> <limit> <passes> <n> <consumers> <cancel> <eof> <fs> <maxammosize> <pads> <sizes>
    obs :  <count> <seq> <closed|blocked> <run class> <handles h<opens>/<closes>/<late> | ->
    The prediction is the run of the model WITH the handle of the ammo file (Model/ProviderFile.v
    run_file) on the kind of file system of the case; the verdict is spec_b on the observation. *)
@@ -25,6 +26,7 @@ let rec err_class (e : err) : string =
   | ENoAmmo -> "err:noammo"
   | ECtx -> "canceled"
   | EUnexpected -> "err:other"
+  | EScan -> "err:other"
   | EPanic -> "panic"
   | ENoAmmoText -> "err:other"
   | ELoad e' -> (match err_class e' with "panic" -> "panic" | c -> c)  (* %w keeps errors.Is *)
@@ -53,11 +55,14 @@ let runclass_of (s : string) : runclass =
   match s with "ok" -> ROk | "canceled" -> RCanceled | "hang" -> RHang | "construct" -> RRefused | _ -> RErr
 
 
-let predict (c : string) (obs : string) : string * string * bool =
-  match split_blank c with
-  | "cell" :: kind :: pre :: lim :: pas :: n :: cons :: cancel :: rest ->   (* the EOF layout does not change the entries *)
+(* a provider cell. [sz] = None: case kind `cell`; Some (maxammosize, sizes of the entries' lines):
+   case kind `sized` (Model/ProviderScan.v run_file_sz / spec_sz) *)
+let predict_cell kind pre lim pas n cons cancel rest (sz : (n * n list) option) (obs : string) : string * string * bool =
       let fs = (match rest with [_eof; "1"] -> FsOS | _ -> FsMem) in
-      let run k cf es c fuel = run_file fs k cf es c fuel in
+      let run k cf es c fuel =
+        (match sz with
+         | None -> run_file fs k cf es c fuel
+         | Some (mx, szs) -> run_file_sz fs k mx cf es szs c fuel) in
       let n = int_of_string n and lim = int_of_string lim and pas = int_of_string pas in
       let cons = int_of_string cons in
       let es = List.init n (fun i -> { e_tag = nat_of_int i; e_id = nat_of_int i }) in
@@ -86,14 +91,29 @@ let predict (c : string) (obs : string) : string * string * bool =
                let p_none = render sorted (run k cf es None fuel) in
                if p_none = obs then p_none else p_c
              end) in
-      let ok = spec_b cf.limit cf.passes es
-          (match cancel_m with None -> None | Some m -> Some (nat_of_int m))
-          (not sorted) (List.map nat_of_int obs_ids) (oafter = "closed") (runclass_of orun) in
+      let cm = (match cancel_m with None -> None | Some m -> Some (nat_of_int m)) in
+      let ok =
+        (match sz with
+         | None -> spec_b cf.limit cf.passes es cm
+                     (not sorted) (List.map nat_of_int obs_ids) (oafter = "closed") (runclass_of orun)
+         | Some (mx, szs) -> spec_sz k mx szs cf.limit cf.passes es cm
+                     (not sorted) (List.map nat_of_int obs_ids) (oafter = "closed") (runclass_of orun)) in
+      let accepted = (match sz with None -> true | Some (mx, szs) -> all_fit_b k mx szs) in
       let why =
+        if not accepted then "an entry does not fit the configured token limit: want consumers released, Run returns" else
         (match bnd with
          | Some b -> Printf.sprintf "want %d delivered (cyclic prefix), closed, run ok" b
          | None -> "want cyclic prefix, closed and prompt return after cancel") in
-      (pred, verdict (ocount = List.length obs_ids && ok) why, (lim > 0 || pas > 0) && n >= 1)
+      (pred, verdict (ocount = List.length obs_ids && ok) why, (lim > 0 || pas > 0) && n >= 1 && accepted)
+
+let predict (c : string) (obs : string) : string * string * bool =
+  match split_blank c with
+  | "cell" :: kind :: pre :: lim :: pas :: n :: cons :: cancel :: rest ->   (* the EOF layout does not change the entries *)
+      predict_cell kind pre lim pas n cons cancel rest None obs
+  | ["sized"; kind; pre; lim; pas; n; cons; cancel; eof; fs; maxsz; _pads; sizes] ->
+      (* sizes: length of the longest line of each entry as rendered (what a line scanner must hold) *)
+      let szs = List.map n_of_string (String.split_on_char ',' sizes) in
+      predict_cell kind pre lim pas n cons cancel [eof; fs] (Some (n_of_string maxsz, szs)) obs
   | "engine" :: kind :: pre :: lim :: pas :: n :: _inst :: rest ->
       let fs = (match rest with ["1"] -> FsOS | _ -> FsMem) in
       let n = int_of_string n and lim = int_of_string lim and pas = int_of_string pas in
